@@ -59,7 +59,9 @@ RULE = ("Engine B on a grammar product: states = distinct generator prefixes (na
         "trace per (structure, key insertion order of each atom); such a case is non-trivial when for some atom the "
         "keys that carry a value are not in canonical order or a None-valued key is left out; repetition pass: one "
         "state / transition / trace per (shape with repeated atoms or groups, object sharing); non-trivial by the "
-        "rule for ordinary structures")
+        "rule for ordinary structures; calling-convention pass: one state / transition / trace per structure, every "
+        "other way of calling PkgRelation.str (8) and parse_relations (6) an evaluation each; paragraph-construction pass: "
+        "one state / transition / trace per (structure, class, field, way the paragraph came into being, way of reading)")
 BUDGET = {"quick": 240, "thorough": 3000}
 
 KEYS = ("name", "archqual", "version", "arch", "restrictions")
@@ -118,6 +120,13 @@ def bounds(tier):
                             "checked: no warning, the neighbouring field, absent fields = [], the key set"
                             % (len(MIXIN_FIELDS["Packages"]), len(MIXIN_FIELDS["Sources"]), len(MIXIN_COMBOS),
                                ", ".join(MIXIN_ACCESS)),
+            "calling_conventions": {"structures": "every one of the %d atoms, %d ordered pairs over the triple core x {OR, AND}, "
+                                                  "the sweep atoms" % (N_ATOMS, tc * tc),
+                                    "str": STR_ROUTES, "parse_relations": PARSE_ROUTES},
+            "paragraph_construction": {"ways": MIXIN_CTORS[1:], "reading": MIXIN_CTOR_ACCESS,
+                                       "structures": "every atom once, each under one (class, field, way, reading) of the %d "
+                                                     "combinations in rotation; 4 structures under every (class, field, way)"
+                                                     % len(MIXIN_CTOR_COMBOS)},
             "core_selection": "deterministic greedy cover of all 2-way combinations of component values and all 16 "
                               "presence masks of the optional parts, then an even stride; independent of the seed"}
 
@@ -144,6 +153,16 @@ def assumptions():
         "five keys (parse_relations always returns all five), under signatures rel/omitted-keys/*; 'name' is never left out",
         "repetition pass: a conjunction / an alternative group is a list, not a set - equal members may occur more than "
         "once and each occurrence is formatted; the same object may occur at several positions",
+        "calling-convention pass: PkgRelation.str is a static method and parse_relations a class method, so calling them on "
+        "an instance or on a sub-class, or naming their documented parameters (rels, raw), is the same call; a structure is "
+        "a sequence of sequences of mappings - tuples in place of the lists, OrderedDict / dict sub-class objects in place "
+        "of the dicts and a deep copy hold the same items and must format to the same string (own signatures rel/call/*); "
+        "left out: one-shot iterators in place of the lists (the annotation says List) and a pickle round trip of a parse "
+        "result (the nested namedtuple classes cannot be pickled on the unchanged library: PicklingError)",
+        "paragraph-construction pass: .relations of a paragraph is defined by the fields it has when it is constructed "
+        "(lazy parse of those fields), so only ways of construction are varied; a paragraph that is assigned the field "
+        "after construction reports [] for it on the unchanged library and is therefore dumped and read again; other "
+        "paragraphs of the same class alive at the same time must not matter",
         "sweep character sets (policy, not what the regex happens to take): package names a<c>b with c in [a-z0-9+.-], "
         "architecture qualifiers and architecture names a<c>b with c in [a-z0-9-], versions 1<c>2 with c in "
         "[A-Za-z0-9.+~-] and the epoch colon as '1:2', build-profile names a<c>b with c in [a-z0-9+.-] (the parser takes "
@@ -397,6 +416,8 @@ def exec_case(case):
         return exec_keys(case)
     if case.get("mixin"):
         return exec_mixin(case)
+    if case.get("calls"):
+        return exec_calls(case)
     from debian.deb822 import PkgRelation as R
     rels = build(case["rels"], share=bool(case.get("share")))
     ev = 1
@@ -441,6 +462,103 @@ def exec_case(case):
 
 
 # ------------------------------------------------------------------------------------------------
+# the same two functions called another way / handed the same structure in another shape
+
+STR_ROUTES = ["on-an-instance", "keyword-argument", "on-a-sub-class", "tuples-for-lists", "ordered-dict-atoms",
+              "dict-sub-class-atoms", "deep-copy-of-the-structure", "the-parse-result-again"]
+PARSE_ROUTES = ["on-an-instance", "keyword-argument", "on-a-sub-class", "on-an-instance-of-a-sub-class", "second-call",
+                "after-an-unparsable-text"]
+
+
+_SUB = {}
+
+
+class _AtomDict(dict):
+    """a dict sub-class: still a dict with the same items"""
+
+
+def exec_calls(case):
+    """-> (violations, outcome class, evaluations): PkgRelation.str / parse_relations reached through the other calling
+    conventions give what the plain calls give.  What the ordinary case reports is not reported again here."""
+    import collections
+    import copy
+    from debian.deb822 import PkgRelation as R
+
+    Sub = _SUB.get(R)
+    if Sub is None:
+        Sub = _SUB[R] = type("Sub", (R,), {})
+    pristine = build(case["rels"])
+    rels = build(case["rels"])
+    try:
+        s0 = R.str(rels)
+        back0 = _quiet_parse(s0)
+    except Exception:
+        return [], "calls: the plain round trip raises (see the ordinary case)", 1
+    if back0 != pristine:
+        return [], "calls: the plain round trip differs (see the ordinary case)", 2
+    bad = []
+    ev = 2
+    for rn in STR_ROUTES:
+        ev += 1
+        try:
+            if rn == "on-an-instance":
+                s = R().str(rels)
+            elif rn == "keyword-argument":
+                s = R.str(rels=rels)
+            elif rn == "on-a-sub-class":
+                s = Sub.str(rels)
+            elif rn == "tuples-for-lists":
+                s = R.str(tuple(tuple(g) for g in rels))
+            elif rn == "ordered-dict-atoms":
+                s = R.str([[collections.OrderedDict(d) for d in g] for g in rels])
+            elif rn == "dict-sub-class-atoms":
+                s = R.str([[_AtomDict(d) for d in g] for g in rels])
+            elif rn == "deep-copy-of-the-structure":
+                s = R.str(copy.deepcopy(rels))
+            else:
+                s = R.str(back0)
+        except Exception as e:
+            bad.append(("rel/call/str/%s/raises:%s" % (rn, type(e).__name__), s0, "%s: %s" % (type(e).__name__, e)))
+            continue
+        if s != s0:
+            bad.append(("rel/call/str/%s/differs" % rn, s0, s))
+        if rels != pristine:
+            bad.append(("rel/call/str/%s/changes-its-argument" % rn, pristine, repr(rels)))
+            rels = build(case["rels"])
+    for rn in PARSE_ROUTES:
+        ev += 1
+        with warnings.catch_warnings(record=True) as w:
+            warnings.simplefilter("always")
+            try:
+                if rn == "on-an-instance":
+                    back = R().parse_relations(s0)
+                elif rn == "keyword-argument":
+                    back = R.parse_relations(raw=s0)
+                elif rn == "on-a-sub-class":
+                    back = Sub.parse_relations(s0)
+                elif rn == "on-an-instance-of-a-sub-class":
+                    back = Sub().parse_relations(s0)
+                elif rn == "second-call":
+                    R.parse_relations(s0)
+                    back = R.parse_relations(s0)
+                else:
+                    with warnings.catch_warnings():
+                        warnings.simplefilter("ignore")
+                        R.parse_relations("a (>= 1, b [")        # warns and is returned raw: nothing may be left behind
+                    back = R.parse_relations(s0)
+            except Exception as e:
+                bad.append(("rel/call/parse/%s/raises:%s" % (rn, type(e).__name__), pristine, "%r -> %s: %s" % (s0, type(e).__name__, e)))
+                continue
+        if w:
+            bad.append(("rel/call/parse/%s/warning" % rn, "no warning for %r" % s0, [str(x.message) for x in w]))
+        if back != pristine:
+            bad.append(("rel/call/parse/%s/%s" % (rn, where(back, pristine)), "%r -> %r" % (s0, pristine), back))
+    n = sum(len(g) for g in pristine)
+    outcome = "calls: %s" % (", ".join(" | ".join(_mask(d) for d in g) for g in pristine) if n <= 2 else "%d atoms" % n)
+    return bad, ("VIOLATION " if bad else "") + outcome, ev
+
+
+# ------------------------------------------------------------------------------------------------
 # the same round trip observed at the paragraph classes: Packages(...).relations etc.
 
 MIXIN_FIELDS = {
@@ -454,6 +572,75 @@ MIXIN_ACCESS = ["subscript", "subscript-field-spelling", "get", "items", "values
                 "neighbour-first", "absent-first", "keys-first"]
 MIXIN_COMBOS = [(c, f, a) for c in ("Packages", "Sources", "BuildInfo") for f in range(len(MIXIN_FIELDS[c]))
                 for a in MIXIN_ACCESS]
+
+
+# how the paragraph that carries the formatted string comes into being (4th element of case["mixin"]; absent = "text")
+MIXIN_CTORS = ["text", "assigned-then-dumped", "mapping", "mapping-keyword", "bytes", "lines", "BytesIO", "iter_paragraphs",
+               "iter_paragraphs-BytesIO", "iter_paragraphs-no-apt-pkg", "fields-filter", "field-name-lower-case",
+               "field-name-upper-case", "from-another-paragraph", "copy", "two-paragraphs-other-read-first",
+               "two-paragraphs-other-built-later"]
+MIXIN_CTOR_ACCESS = ["subscript", "get", "items"]
+MIXIN_CTOR_COMBOS = [(c, f, a, k) for c in ("Packages", "Sources", "BuildInfo") for f in range(len(MIXIN_FIELDS[c]))
+                     for k in MIXIN_CTORS[1:] for a in MIXIN_CTOR_ACCESS]
+
+
+def mixin_construct(cls, f, s, neighbour, ctor):
+    """-> (the paragraph whose field f holds the formatted string s, description of its source)"""
+    import io
+    pairs = [("Package", "x"), (f, s)] + ([(neighbour, "other-pkg")] if neighbour else [])
+    text = "".join("%s: %s\n" % kv for kv in pairs)
+    other_pairs = [("Package", "y"), (f, "zz-other (<< 9) [amd64] <stage1>, zz-b | zz-c")]
+    other_text = "".join("%s: %s\n" % kv for kv in other_pairs)
+    if ctor == "text":
+        return cls(text), text
+    if ctor == "assigned-then-dumped":
+        p = cls()
+        for k, v in pairs:
+            p[k] = v
+        return cls(p.dump()), "dump of assignments %r" % (pairs,)
+    if ctor == "mapping":
+        return cls(dict(pairs)), "mapping %r" % (dict(pairs),)
+    if ctor == "mapping-keyword":
+        return cls(sequence=dict(pairs), encoding="utf-8"), "sequence=%r" % (dict(pairs),)
+    if ctor == "bytes":
+        return cls(text.encode("utf-8")), "bytes %r" % text
+    if ctor == "lines":
+        return cls(text.splitlines()), "lines %r" % text
+    if ctor == "BytesIO":
+        return cls(io.BytesIO(text.encode("utf-8"))), "BytesIO %r" % text
+    if ctor in ("iter_paragraphs", "iter_paragraphs-BytesIO", "iter_paragraphs-no-apt-pkg"):
+        doc = other_text + "\n" + text + "\n" + other_text
+        src = io.BytesIO(doc.encode("utf-8")) if ctor == "iter_paragraphs-BytesIO" else doc
+        ps = list(cls.iter_paragraphs(src, use_apt_pkg=False) if ctor == "iter_paragraphs-no-apt-pkg" else cls.iter_paragraphs(src))
+        if len(ps) != 3:
+            raise ValueError("iter_paragraphs gave %d paragraphs" % len(ps))
+        ps[0].relations, ps[2].relations
+        return ps[1], "second of three paragraphs of %r" % doc
+    if ctor == "fields-filter":
+        return cls(text, fields=[k for k, _v in pairs]), "fields= all of %r" % text
+    if ctor in ("field-name-lower-case", "field-name-upper-case"):
+        t2 = "".join("%s: %s\n" % ((k.lower() if ctor.endswith("lower-case") else k.upper()) if k == f else k, v) for k, v in pairs)
+        return cls(t2), t2
+    if ctor == "from-another-paragraph":
+        return cls(cls(text)), "cls(cls(%r))" % text
+    if ctor == "copy":
+        return cls(text).copy(), "cls(%r).copy()" % text
+    if ctor == "two-paragraphs-other-read-first":
+        other = cls(other_text)
+        p = cls(text)
+        other.relations[f.lower()]
+        return p, "%r while cls(%r) is alive and was read first" % (text, other_text)
+    if ctor == "two-paragraphs-other-built-later":
+        p = cls(text)
+        other = cls(other_text)
+        other.relations[f.lower()]
+        _KEEP.append(other)
+        del _KEEP[:-4]
+        return p, "%r, cls(%r) built and read afterwards" % (text, other_text)
+    raise AssertionError(ctor)
+
+
+_KEEP = []
 
 
 def mixin_access(rel, key, spelled, neighbour, absent, how):
@@ -490,7 +677,8 @@ def mixin_access(rel, key, spelled, neighbour, absent, how):
 def exec_mixin(case):
     from debian import deb822
     R = deb822.PkgRelation
-    cname, fi, how = case["mixin"]
+    cname, fi, how = case["mixin"][:3]
+    ctor = case["mixin"][3] if len(case["mixin"]) > 3 else "text"
     fields = MIXIN_FIELDS[cname]
     f = fields[fi]
     neighbour = fields[(fi + 1) % len(fields)] if len(fields) > 1 else None
@@ -506,11 +694,16 @@ def exec_mixin(case):
     text = "Package: x\n%s: %s\n" % (f, s)
     if neighbour:
         text += "%s: other-pkg\n" % neighbour
-    sig0 = "rel/at-%s.relations/" % cname
+    sig0 = "rel/at-%s.relations/" % cname + ("" if ctor == "text" else "built-by-%s/" % ctor)
     with warnings.catch_warnings(record=True) as w:
         warnings.simplefilter("always")
         try:
-            obj = getattr(deb822, cname)(text)
+            if ctor == "text":
+                obj = getattr(deb822, cname)(text)
+            else:
+                with warnings.catch_warnings():
+                    warnings.simplefilter("ignore")        # iter_paragraphs: "apt_pkg was requested but ..." is not about relations
+                    obj, text = mixin_construct(getattr(deb822, cname), f, s, neighbour, ctor)
             rel = obj.relations
             got = mixin_access(rel, f.lower(), f, neighbour, absent, how)
             rest = dict((k.lower(), rel[k.lower()]) for k in fields if k != f)
@@ -539,7 +732,8 @@ def exec_mixin(case):
                 bad.append((sig0 + "restr-differs", s, s2))
         except Exception as e:
             bad.append((sig0 + "restr-raises:%s" % type(e).__name__, s, "%s: %s" % (type(e).__name__, e)))
-    outcome = "%s.relations read by %s: %s" % (cname, how, "VIOLATION" if bad else "equals the structure")
+    outcome = "%s.relations%s read by %s: %s" % (cname, "" if ctor == "text" else " of a paragraph built by " + ctor, how,
+                                                 "VIOLATION" if bad else "equals the structure")
     return bad, outcome, ev
 
 
@@ -627,6 +821,8 @@ def keys_nontrivial(case):
 def nontrivial(case):
     if case.get("alias"):
         return alias_nontrivial(case)
+    if case.get("calls"):
+        return any(sum(1 for x in a[1:] if x is not None) >= 2 for g in case["rels"] for a in g)
     if case.get("keys"):
         return keys_nontrivial(case)
     return any(sum(1 for x in a[1:] if x is not None) >= 2 for g in case["rels"] for a in g)
@@ -795,6 +991,12 @@ def units(tier, seed):
     out += [("mixin-atoms", n, q) for n in range(RADIX[0]) for q in range(RADIX[1])]
     out += [("mixin-repeat", i, pc) for i in firsts]
     out += [("mixin-access", c) for c in ("Packages", "Sources", "BuildInfo")]
+    # the other routes: calling conventions (every atom, pairs over the triple core, the sweep atoms) and other ways a
+    # paragraph with a relationship field comes into being
+    out += [("calls", n, q) for n in range(RADIX[0]) for q in range(RADIX[1])]
+    out += [("calls-more", tc)]
+    out += [("mixin-ctor-atoms", n, q) for n in range(RADIX[0]) for q in range(RADIX[1])]
+    out += [("mixin-ctor-all", c) for c in ("Packages", "Sources", "BuildInfo")]
     return out
 
 
@@ -826,6 +1028,14 @@ def unit_cost(u, tier):
         return 2 * (len(REPEAT_SHAPES) + 2) * len(_first_indexes(u[1]))
     if u[0] == "mixin-access":
         return 5 * len(MIXIN_FIELDS[u[1]]) * len(MIXIN_ACCESS) * 2
+    if u[0] == "calls":
+        return PER_UNIT * 6
+    if u[0] == "calls-more":
+        return 8 * (2 * len(u[1]) ** 2 + 300)
+    if u[0] == "mixin-ctor-atoms":
+        return PER_UNIT * 3
+    if u[0] == "mixin-ctor-all":
+        return 4 * len(MIXIN_FIELDS[u[1]]) * len(MIXIN_CTORS) * 3
     return 3 * 4 * len(u[2]) ** 2
 
 
@@ -915,6 +1125,68 @@ def run_unit(u, tier, seed):
                     case = {"rels": rels, "mixin": [cname, fi, how]}
                     _do(part, case)
                     part.extra["at .relations: every class x field x way of reading"] += 1
+        part.sample(case)
+        return part
+    if u[0] == "calls":
+        _, n, q = u
+        part.max_depth = 6
+        for v in range(RADIX[2]):
+            for a in range(RADIX[3]):
+                for r in range(RADIX[4]):
+                    node()
+                    case = {"rels": [[atom(C, (n, q, v, a, r))]], "calls": 1}
+                    _do(part, case)
+                    part.extra["calling conventions: single atoms"] += 1
+                    if (v, a, r) == (5, 2, 3):
+                        part.sample(case)
+        return part
+    if u[0] == "calls-more":
+        tc = u[1]
+        part.max_depth = 11
+        for shape in ("a|b", "a,b"):
+            for ix in tc:
+                for jx in tc:
+                    node()
+                    case = {"rels": shape_rels(shape, [atom(C, ix), atom(C, jx)]), "calls": 1}
+                    _do(part, case)
+                    part.extra["calling conventions: pairs"] += 1
+        for _name, atoms in sweep_plan():
+            for a in atoms:
+                node()
+                case = {"rels": [[a]], "calls": 1}
+                _do(part, case)
+                part.extra["calling conventions: sweep atoms"] += 1
+        part.sample(case)
+        return part
+    if u[0] == "mixin-ctor-atoms":
+        _, n, q = u
+        part.max_depth = 6
+        for v in range(RADIX[2]):
+            for a in range(RADIX[3]):
+                for r in range(RADIX[4]):
+                    node()
+                    k = ((((n * RADIX[1] + q) * RADIX[2] + v) * RADIX[3] + a) * RADIX[4] + r) * 11 + seed
+                    c, f, acc, ctor = MIXIN_CTOR_COMBOS[k % len(MIXIN_CTOR_COMBOS)]
+                    case = {"rels": [[atom(C, (n, q, v, a, r))]], "mixin": [c, f, acc, ctor]}
+                    _do(part, case)
+                    part.extra["at .relations, paragraph built another way: single atoms"] += 1
+                    if (v, a, r) == (5, 2, 3):
+                        part.sample(case)
+        return part
+    if u[0] == "mixin-ctor-all":
+        cname = u[1]
+        part.max_depth = 20
+        idx = all_indexes()
+        picks = [idx[len(idx) // 3], idx[-1]]
+        abc = dict((x, atom(C, idx[(len(idx) * (j + 2)) // 5])) for j, x in enumerate("abc"))
+        structures = [[[atom(C, ix)]] for ix in picks] + [letters_rels(sh, abc) for sh in ("a|b,c", "a,b,a")]
+        for rels in structures:
+            for fi in range(len(MIXIN_FIELDS[cname])):
+                for ctor in MIXIN_CTORS[1:]:
+                    node()
+                    case = {"rels": rels, "mixin": [cname, fi, "subscript", ctor]}
+                    _do(part, case)
+                    part.extra["at .relations, paragraph built another way: every class x field x way"] += 1
         part.sample(case)
         return part
     if u[0] == "alias":
